@@ -108,7 +108,8 @@ Proof.
   - intros S O C. exact (clipperD_shape exc pow10 Hpow p S O C Hp).
   - intros S C. exact (booleanopD_shape exc pow10 Hpow p S C Hp).
   - intros S. exact (union1D_shape exc pow10 Hpow p S Hp).
-  - intros ps delta arc Hd. exact (inflateD_shape exc pow10 Hpow p ps delta arc Hp Hd).
+  - intros ps delta arc Hd. first [ exact (inflateD_shape exc pow10 Hpow p ps delta arc Hp Hd)
+                                  | exact (inflateD_shape exc pow10 Hpow p ps delta arc Hp) ].
   - intros r ps Hr Hne. exact (rectclipD_shape exc pow10 Hpow p r ps Hp Hr Hne).
   - intros pth. exact (trimcollinearD_shape exc pow10 Hpow p pth Hp).
   - intros pat pth. exact (minkowskiD_shape exc pow10 Hpow p pat pth Hp).
@@ -123,9 +124,7 @@ Theorem C16_api_shape_sat :
 Proof. exact shape_hyps_sat. Qed.
 Print Assumptions C16_api_shape_sat.
 
-(* the one place where the faithful wrapper model is NOT descale o entry64 o scale: InflatePaths(PathsD) with delta = 0
-   returns its input unrounded (the integer operation on the scaled input would return the input rounded to the grid) *)
-Theorem C16_inflate_delta0_refuted : forall exc pow10 p ps arc, - 8 <= p <= 8 ->
-  inflateD exc pow10 p ps 0 arc = Val (0, VInput).
-Proof. exact inflateD_delta0_returns_input. Qed.
-Print Assumptions C16_inflate_delta0_refuted.
+(* InflatePaths(PathsD) with delta = 0: the code of the unpatched tree returns its input unrounded before any scaling
+   (`if (!delta) return paths;`), which is not descale o entry64 o scale.  That is reported by the differential as
+   inflateD.delta0-returns-unrounded-input and repaired by triage/C16-inflateD-delta0.patch; the wrapper model
+   (ErrorModel.inflateD) follows the repaired code, where delta = 0 is no special case. *)
